@@ -381,8 +381,10 @@ theorem rendezvous_channel_delivers_exactly (h : SM.Heu) (s : Store) (n : Nat) (
   exact NConc.rendezvous_delivers (SM.heuCall h) s n ac stable hd sched
 
 /-- **the receiver is dropped before the last model was sent: the `.expect("Sender should accept results")` at
-the send site (`adf.rs:922`) panics** - with the concrete producer `NConc.ngProducer` (the search itself), any
-capacity: after ANY schedule `sched` in which fewer models were handed to the channel than the search finds
+the send site panics** - with the concrete producer `NConc.ngProducer` (the search itself), any
+capacity (for `cap = some 0` the model `Chan.DCfg` never sends - `Chan.cap0_never_sends` below - so `got = []` and the
+hypothesis `sent < res.length` is trivially true there; the rendezvous channel is only treated without receiver drop,
+`rendezvous_channel_delivers_exactly`): after ANY schedule `sched` in which fewer models were handed to the channel than the search finds
 (`sent < res.length`), the consumer drops the receiver; every continuation `more` containing more than `fuel`
 producer steps ends with the producer thread panicked (the unwinding drops the sender), and the consumer has
 exactly what it had received when it dropped the receiver.  (If all models were already sent there is nothing
@@ -410,7 +412,10 @@ in one thread, `while let Ok(v) = r.recv()` in another).  `hs` = the calls (heur
 object with store `s`; every search starts on the store its predecessor left behind.  There are fuels (`calls`)
 within which all searches halt; every search returns exactly the stable resp. two-valued models of the object's
 conditions (`NConc.ngAllExact`); and in the explicit clone model `Chan.MCfg` (sender COUNT; a search drops only
-the handle it was handed; the channel is disconnected when the count is 0), for every capacity and schedule:
+the handle it was handed; the channel is disconnected when the count is 0), for every capacity and schedule
+(for `cap = some 0` the model `Chan.MCfg` never sends, so clauses 1-4 hold there with `got = buf = []` for the wrong
+reason; the rendezvous channel `bounded(0)` is only treated for ONE search without clones,
+`rendezvous_channel_delivers_exactly`):
  1. received ++ queued is a prefix of the concatenation `all` of the k result lists;
  2. the count is 0 iff the last call has returned, then exactly k handles were dropped; with fewer than k drops a
     handle is alive and the consumer's loop has NOT ended (the first k-1 drops do not disconnect);
@@ -675,7 +680,149 @@ example : NSem.OkV ([1].map (eval Store.init)) 1 true
     ((NConc.initC Store.init 1 [1]).cur.map (eval (NConc.initC Store.init 1 [1]).s)) :=
   (NConc.init_facts Store.init 1 [1] true WF_init' (by simp [Store.init]) rfl).2.2.1
 
+/-! ### third review (audit L1): the second-review theorems for ANY heuristic with `HeuOK` (the property says "any
+custom heuristic"), a direct instance of `rendezvous_channel_delivers_exactly`, and the `cap = some 0` caveat -/
+section ThirdReview
+open Chan
+
+/-- the three "second review" theorems for ANY heuristic function with `HeuOK` -/
+theorem rendezvous_any_heuristic (hc : NConc.CHeu) (hok : NConc.HeuOK hc) (s : Store) (n : Nat) (ac : List Nat)
+    (stable : Bool) (w0 : WF s) (hn : ac.length = n) (hac0 : ∀ t ∈ ac, t < s.nodes.size)
+    (hsup : stable = false → ∀ t ∈ ac, ∀ σ τ : Asg, (∀ i, i < n → σ i = τ i) → eval s t σ = eval s t τ) :
+    ∃ fuel, (NConc.cSearch hc fuel s n ac stable).2.2.2 = true ∧
+      let res := (NConc.cSearch hc fuel s n ac stable).2.1
+      ExactModels s n ac stable res ∧
+      ∀ (sched : List Chan.Ev),
+        let c := NConc.chanRunZ hc sched s n ac stable
+        (c.got <+: res ∧ c.buf = []) ∧
+        (c.closed = true → c.got = res ∧ c.log = res.map Chan.ChEv.send ++ [Chan.ChEv.close]) ∧
+        (c.consDone = true → c.got = res ∧ c.closed = true) ∧
+        (∀ m, Chan.Fair m sched → fuel + res.length + 1 + res.length + 1 ≤ m → c.consDone = true) := by
+  obtain ⟨fuel, hd, hex⟩ := ng_search_exact_any_heuristic hc hok s n ac stable w0 hn hac0 hsup
+  exact ⟨fuel, hd, hex, fun sched => NConc.rendezvous_delivers hc s n ac stable hd sched⟩
+
+theorem receiver_dropped_any_heuristic (hc : NConc.CHeu) (hok : NConc.HeuOK hc) (s : Store) (n : Nat) (ac : List Nat)
+    (stable : Bool) (w0 : WF s) (hn : ac.length = n) (hac0 : ∀ t ∈ ac, t < s.nodes.size)
+    (hsup : stable = false → ∀ t ∈ ac, ∀ σ τ : Asg, (∀ i, i < n → σ i = τ i) → eval s t σ = eval s t τ) :
+    ∃ fuel, (NConc.cSearch hc fuel s n ac stable).2.2.2 = true ∧
+      let res := (NConc.cSearch hc fuel s n ac stable).2.1
+      ExactModels s n ac stable res ∧
+      ∀ (cap : Option Nat) (sched : List Chan.Ev) (more : List Chan.DEv),
+        (NConc.chanRun hc cap sched s n ac stable).sent < res.length →
+        fuel < more.count Chan.DEv.prod →
+        let c := NConc.chanRunD hc cap (sched.map Chan.Ev.toD ++ Chan.DEv.dropRecv :: more) s n ac stable
+        c.panicked = true ∧ c.base.got = (NConc.chanRun hc cap sched s n ac stable).got := by
+  obtain ⟨fuel, hd, hex⟩ := ng_search_exact_any_heuristic hc hok s n ac stable w0 hn hac0 hsup
+  exact ⟨fuel, hd, hex, fun cap sched more hlt hmore =>
+    NConc.receiver_dropped_panics hc cap s n ac stable hd sched more hlt hmore⟩
+
+
+theorem shared_sender_clones_any_heuristic (x : NConc.CHeu × Bool) (tl : List (NConc.CHeu × Bool))
+    (hok : ∀ y ∈ x :: tl, NConc.HeuOK y.1) (s : Store) (n : Nat) (ac : List Nat)
+    (w : WF s) (hn : ac.length = n) (hv : ∀ t ∈ ac, t < s.nodes.size)
+    (hsup : (∃ y ∈ x :: tl, y.2 = false) → ∀ t ∈ ac, ∀ σ τ : Asg, (∀ i, i < n → σ i = τ i) → eval s t σ = eval s t τ) :
+    ∃ (c0 : NConc.CHeu × Bool × Nat) (cs : List (NConc.CHeu × Bool × Nat)),
+      (c0 :: cs).map (fun c => (c.1, c.2.1)) = (x :: tl) ∧
+      NConc.ngAllDone n ac s (c0 :: cs) ∧ NConc.ngAllExact n ac (ac.map (eval s)) s (c0 :: cs) ∧
+      ∀ cap : Option Nat, ∃ m, ∀ sched : List Chan.Ev,
+        let c := NConc.chanRunM cap sched n ac s c0 cs
+        let all := (NConc.ngResults n ac s (c0 :: cs)).flatten
+        (c.got ++ c.buf <+: all) ∧
+        ((c.senders = 0 ↔ c.running = false) ∧ (c.senders = 0 → c.drops = cs.length + 1) ∧
+          (c.drops < cs.length + 1 → 1 ≤ c.senders ∧ c.consDone = false)) ∧
+        (c.senders = 0 → c.got ++ c.buf = all) ∧
+        (c.consDone = true → c.got = all ∧ c.senders = 0 ∧ c.buf = []) ∧
+        ((∀ k, cap = some k → 1 ≤ k) → Chan.Fair m sched → c.consDone = true) := by
+  obtain ⟨calls, h1, h2, h3⟩ := NConc.ng_fuels_exist n ac (ac.map (eval s)) (x :: tl) s hok w hn hv rfl hsup
+  cases calls with
+  | nil => simp at h1
+  | cons c0 cs => exact ⟨c0, cs, h1, h2, h3, fun cap => NConc.clones_deliver_ng cap n ac s c0 cs h2⟩
+
+def alt (m : Nat) : List Ev := List.flatten (List.replicate m [Ev.prod, Ev.cons])
+
+/-- direct instance of `rendezvous_channel_delivers_exactly` -/
+example (h : SM.Heu) : ∃ fuel m,
+    let z := NConc.chanRunZ (SM.heuCall h) (alt m) (buildNative 2 [.atom 1, .atom 0]).1 2 (buildNative 2 [.atom 1, .atom 0]).2 false
+    z.consDone = true ∧ z.got = (SM.ngSearch h fuel (buildNative 2 [.atom 1, .atom 0]).1 2 (buildNative 2 [.atom 1, .atom 0]).2 false).2.1 ∧
+    [some true, some true] ∈ z.got.map (fun v => v.map storeIsConst) := by
+  obtain ⟨w, hl, hv, hD, hs⟩ := NConc.compiled_facts [.atom 1, .atom 0] (by simp [VBOT])
+    (by intro f hf; simp at hf; rcases hf with rfl | rfl <;> simp [NConc.atomsLt])
+  have hD : (buildNative 2 [.atom 1, .atom 0]).2.map (eval (buildNative 2 [.atom 1, .atom 0]).1) =
+      [Fm.atom 1, Fm.atom 0].map Fm.sem := hD
+  obtain ⟨fuel, _, hex, hz⟩ := rendezvous_channel_delivers_exactly h (buildNative 2 [.atom 1, .atom 0]).1 2
+    (buildNative 2 [.atom 1, .atom 0]).2 false w hl hv (fun _ => hs)
+  let L := (SM.ngSearch h fuel (buildNative 2 [.atom 1, .atom 0]).1 2 (buildNative 2 [.atom 1, .atom 0]).2 false).2.1.length
+  refine ⟨fuel, fuel + L + 1 + L + 1, ?_⟩
+  have ⟨_, _, h3, h4⟩ := hz (alt (fuel + L + 1 + L + 1))
+  have hd := h4 _ (Chan.fair_alternating _) (Nat.le_refl _)
+  refine ⟨hd, (h3 hd).1, ?_⟩
+  rw [(h3 hd).1]
+  simp only [ExactModels, hD] at hex
+  exact (hex.2 _).mpr (mutual_support_models _ (Or.inr rfl))
+
+
+
+end ThirdReview
+
 end C05
+
+section ThirdReviewCap0
+open Chan
+/-- capacity `some 0` in `Chan.run`: nothing is ever sent, whatever the producer and the schedule -/
+theorem Chan.cap0_never_sends {σ α : Type} (P : Producer σ α) (sched : List Ev) :
+    ∀ c : Cfg σ α, c.sent = 0 → c.buf = [] → c.got = [] →
+      (run P (some 0) sched c).sent = 0 ∧ (run P (some 0) sched c).got = [] ∧ (run P (some 0) sched c).buf = [] := by
+  induction sched with
+  | nil => intro c a b d; exact ⟨a, d, b⟩
+  | cons e es ih =>
+    intro c a b d
+    apply ih
+    · cases e with
+      | prod =>
+        simp only [step, prodStep, full]
+        split
+        · exact a
+        · split
+          · simp [a]
+          · split <;> exact a
+      | cons =>
+        simp only [step, consStep]
+        split
+        · exact a
+        · rw [b]; simp only; split <;> exact a
+    · cases e with
+      | prod =>
+        simp only [step, prodStep, full]
+        split
+        · exact b
+        · split
+          · simp [b]
+          · split <;> exact b
+      | cons =>
+        simp only [step, consStep]
+        split
+        · exact b
+        · rw [b]; simp only; split <;> first | rfl | exact b
+    · cases e with
+      | prod =>
+        simp only [step, prodStep, full]
+        split
+        · exact d
+        · split
+          · simp [d]
+          · split <;> exact d
+      | cons =>
+        simp only [step, consStep]
+        split
+        · exact d
+        · rw [b]; simp only; split <;> exact d
+
+example (h : SM.Heu) (sched : List Ev) (s : Store) (n : Nat) (ac : List Nat) (st : Bool) :
+    (NConc.chanRun (SM.heuCall h) (some 0) sched s n ac st).sent = 0 ∧
+    (NConc.chanRun (SM.heuCall h) (some 0) sched s n ac st).got = [] :=
+  let r := Chan.cap0_never_sends (NConc.ngProducer (SM.heuCall h) n ac st) sched (Chan.init (NConc.initC s n ac)) rfl rfl rfl
+  ⟨r.1, r.2.1⟩
+
 #print axioms C05.ng_search_exact
 #print axioms C05.channel_variants_deliver_exactly
 #print axioms C05.channel_variants_any_heuristic
@@ -691,3 +838,10 @@ its condition — the model emits `[1]` and `[0]` in two-valued mode, though no 
 (an evaluation, not a kernel-checked lemma: `Std.HashMap` does not reduce in the kernel) -/
 #guard (SM.ngSearch .simple 50 (mkNode Store.init 5 0 1).1 1 [(mkNode Store.init 5 0 1).2] false).2.1 == [[1], [0]]
 #guard (SM.ngSearch .simple 50 (mkNode Store.init 5 0 1).1 1 [(mkNode Store.init 5 0 1).2] true).2.1 == []
+
+end ThirdReviewCap0
+
+#print axioms C05.rendezvous_any_heuristic
+#print axioms C05.receiver_dropped_any_heuristic
+#print axioms C05.shared_sender_clones_any_heuristic
+#print axioms Chan.cap0_never_sends
